@@ -98,6 +98,8 @@ func draw(kind string, seed, n int) []*genlab.ProgSpec {
 		g := rapid.Custom(func(t *rapid.T) *genlab.ProgSpec {
 			o := &im.GenOpts{Services: true, Defaults: true, Consts: true, Annotations: true, Recursive: true, MaxFiles: 3, Small: i%3 == 0}
 			o.Avoid = avoidSet()
+			// every fourth program is compiled in non-strict mode: fields without requiredness, negative field ids
+			o.NonStrict = i%4 == 1
 			if kind == "redact" {
 				o.RedactRate = 2
 			}
